@@ -98,7 +98,8 @@ def cloud_cases(draw, min_n=1, ncomp=1):
     def make(tier_max):
         return gen.clouds(min_n=min_n, max_n=tier_max)
 
-    cloud = draw(gen.clouds(min_n=min_n, max_n=draw(st.sampled_from([6, 15, 40]))))
+    # (a third of the clouds with exact structure: points on a regular grid, on straight survey lines, stored sorted)
+    cloud = draw(gen.clouds(min_n=min_n, max_n=draw(st.sampled_from([6, 15, 40])), structures=gen.STRUCTURES))
     n = len(cloud["cells"])
     kind = draw(st.sampled_from(["unit", "int", "big", "small", "mixed", "huge"]))
     data = [draw(gen.data_values(n, kind)) for _ in range(ncomp)]
@@ -158,6 +159,7 @@ def check_spline(case, ctx):
                         % (md, d.size, err, tol, kappa, scale))
     check_subsets(sp, e, n, (d,), tol, "Spline(mindist=%r)" % (md,))
     ctx.label("kappa1e%d" % int(math.log10(max(kappa, 1))), "int_data" if d_arg is not d else "float_data", "mindist" if md else "nomindist", "n>=80" if d.size >= 80 else "n<80", "weighted" if case.get("weighted") else "unweighted")
+    ctx.label("structure_%s" % (case["cloud"].get("structure") or "none"))
     ctx.nt(d.size >= 4 and nonconstant(case["data"][0]))
 
 
@@ -191,7 +193,7 @@ def check_vector(case, ctx):
             raise Violation("VectorSpline2D(poisson=%r, mindist=%r) does not reproduce component %d of its data: max error %.3e, tolerance %.3e (kappa %.3e)"
                             % (case["poisson"], md, k, err, tol, kappa))
     check_subsets(vs, e, n, d, 64 * kappa * EPS * scale + TINY, "VectorSpline2D(poisson=%r, mindist=%r)" % (case["poisson"], md))
-    ctx.label("kappa1e%d" % int(math.log10(max(kappa, 1))))
+    ctx.label("kappa1e%d" % int(math.log10(max(kappa, 1))), "structure_%s" % (case["cloud"].get("structure") or "none"))
     ctx.nt(d[0].size >= 4 and nonconstant(case["data"][0]) and nonconstant(case["data"][1]))
 
 
@@ -349,7 +351,7 @@ def check_composition(case, ctx):
             raise Violation("%s fitted to %d points does not reproduce component %d of its data: max error %.3e, tolerance %.3e" % (comp, d.size, k, err, tol))
     if not uses_scipy:  # (the SciPy interpolators can return NaN at hull vertices, finding D9, which the loop above sorts out point by point)
         check_subsets(est, e, n, (d0, d1) if vector else (d0,), tol, comp)
-    ctx.label(comp)
+    ctx.label(comp, "structure_%s" % (case["cloud"].get("structure") or "none"))
     ctx.nt(d0.size >= 4 and nonconstant(case["data"][0]))
 
 
